@@ -82,6 +82,9 @@ Definition via (tb : tables) (i : tid) (ov : option val) : tables * option val :
 (* ---------- block parameters in force (decoded view of a BlockParameters value) ---------- *)
 Record bparams := mkBp { bp_tps : N; bp_max : N; h_qr : N; h_sig : N; h_rr : N; h_other : N }.
 Definition nth_o (l : list (option val)) (i : nat) : option val := nth i l None.
+(* GenericQueryResponse::query_ancount is a uint16_t while QueryResponseSignature::query_ancount is a uint32_t: what read_generic_qr hands
+   out is the stored count narrowed to 16 bits (the identity on everything the exporter can be given) *)
+Definition narrow16 (o : option val) : option val := match o with Some (VN n) => Some (VN (n mod 65536)) | _ => o end.
 Definition vn (ov : option val) : N := match ov with Some (VN n) => n | _ => 0 end.
 Definition bp_of_val (bp : val) : bparams :=
   match bp with
